@@ -8,6 +8,7 @@ From PcoreV Require Import Model.Base Model.Format Model.FormatShare Model.Forma
 From PcoreV Require Import Proofs.FormatSprintf.
 From PcoreV Require Import Proofs.FormatProofs Proofs.FormatWidth Proofs.FormatTotal Proofs.FormatRadix Proofs.FormatRadixPad Proofs.FormatNoFault Proofs.FormatShare.
 From PcoreV Require Import Model.FormatFloatShape Proofs.FormatFloatShape Proofs.FormatLayout.
+From PcoreV Require Import Model.FormatClosed Proofs.FormatClosed.
 Import ListNotations.
 Open Scope Z_scope.
 
@@ -330,6 +331,60 @@ Theorem C20_float_g_shape :
 Proof. exact float_g_shape. Qed.
 Print Assumptions C20_float_g_shape.
 
+(* floatGFormat (g G) as ONE closed statement (Model/FormatClosed.v: float_g_spec), for every digit oracle with ASCII
+   strings: the text is fl_layout(left, zero, width, sign, body) - the layout of C20_float_layout_parts - where sign and
+   text r are fmt's %g rendering (sign fmt wrote ++ digit string of the oracle) split at its sign character, and
+   body = g_body f keep r: r itself when it carries an exponent or the number is Inf / NaN, else r ++ g_fill (a '.' when
+   there is none, the zeros missing to g_prec significant digits, "1" -> "1.0"); when r is integral with exactly g_prec
+   digits the text is the %e shape go_fmt_float_spec with precision g_prec - 1.  C20_float_g_shape and
+   C20_pad_float_shape are its two steps (it is derived from pad_float_shape and go_fmt_float_shape). *)
+Theorem C20_float_g_shape_closed :
+  forall (o : oracle) (f : format) (bits : Z),
+    fdig_ascii o = true -> float_g o f bits = float_g_spec (dig_of o) f bits.
+Proof. exact float_g_shape_closed. Qed.
+Print Assumptions C20_float_g_shape_closed.
+
+(* when the digit strings begin with no sign character (strconv's never do: fdig_unsigned, evaluated by the
+   correspondence on every case) the sign laid out is the sign fmt chose (fl_sign) and the body is g_body of the
+   oracle's digit string itself *)
+Theorem C20_float_g_shape_closed_unsigned :
+  forall (o : oracle) (f : format) (bits : Z),
+    fdig_ascii o = true -> fdig_unsigned o = true -> float_g o f bits = float_g_spec_unsigned (dig_of o) f bits.
+Proof. exact float_g_shape_closed_unsigned. Qed.
+Print Assumptions C20_float_g_shape_closed_unsigned.
+
+(* Boolean / Integer / Float under g G, any table *)
+Theorem C20_float_g_shape_scalar :
+  forall (o : oracle) (f : format) (v : value) (bits : Z),
+    fdig_ascii o = true -> float_bits_of o v = Some bits -> mem (f_char f) l_gG = true ->
+    render_scalar o f v = float_g_spec (dig_of o) f bits.
+Proof. exact render_scalar_float_g_closed. Qed.
+Print Assumptions C20_float_g_shape_scalar.
+
+(* the correspondence obligation float_g_check (Corr/CorrC20.v, every case) holds of the model's own text *)
+Theorem C20_float_g_check_sound :
+  forall (o : oracle) (v : value) (spec : fspec) (t : str),
+    fdig_ascii o = true ->
+    format_value o v spec = Some (OText t) -> float_g_check o v spec (OText t) = true.
+Proof. exact float_g_check_model. Qed.
+Print Assumptions C20_float_g_check_sound.
+
+(* 1.5 under %08g: filled to 6 significant digits, zero padded; -1.5 under %-+9.3g; 100000 under %.6g is rendered anew
+   as %.5e; 1e+21 keeps its exponent; the closed form computes the same texts *)
+Example C20_float_g_closed_ex :
+  let pos := 4609434218613702656 in let neg := 13832806255468478464 in let big := 4681608360884174848 in
+  let o := mkOracle [] [] [] [((pos, 103%N, -1), lit "1.5"); ((neg, 103%N, 3), lit "1.5"); ((big, 103%N, 6), lit "100000");
+                              ((big, 101%N, 5), lit "1.00000e+05"); ((pos, 71%N, -1), lit "1.5E+21")] [] [] [] in
+  fdig_ascii o = true /\ fdig_unsigned o = true
+  /\ float_g_spec_unsigned (dig_of o) (mkFormat false false true 103 0 (-1) 8 0 None None CfNone) pos = OText (lit "01.50000")
+  /\ float_g_spec_unsigned (dig_of o) (mkFormat false true false 103 43 3 9 0 None None CfNone) neg = OText (lit "-1.50    ")
+  /\ float_g_spec_unsigned (dig_of o) (mkFormat false false false 103 0 6 (-1) 0 None None CfNone) big = OText (lit "1.00000e+05")
+  /\ float_g_spec_unsigned (dig_of o) (mkFormat false false false 71 32 (-1) 9 0 None None CfNone) pos = OText (lit "  1.5E+21")
+  /\ format_value o (VFloat pos) (FStr (lit "%08g")) = Some (OText (lit "01.50000"))
+  /\ format_value o (VFloat neg) (FStr (lit "%-+9.3g")) = Some (OText (lit "-1.50    "))
+  /\ format_value o (VFloat big) (FStr (lit "%.6g")) = Some (OText (lit "1.00000e+05")).
+Proof. vm_compute. repeat split. Qed.
+
 (* the correspondence obligation float_shape_check (Corr/CorrC20.v evaluates it on every case of a run: fdig_ascii of the
    observed digit strings, width in runes under e E f g G a A, observed text = go_fmt_float_spec under e E f a A) holds
    of the model's own text, so a failure of it is a difference between model and implementation *)
@@ -481,6 +536,75 @@ Theorem C20_array_alternate_step :
     sep ++ (if ah then [] else if szb || prev then 10%N :: pad else [32%N]) ++ s ++ arr_rest true szb pad sep r ah.
 Proof. exact arr_rest_alternate_step. Qed.
 Print Assumptions C20_array_alternate_step.
+
+(* the alternate ('#') Array layout with container children and line breaks for size as ONE closed formula
+   (Model/FormatClosed.v, by induction on the element list): [line break + own padding when nested and not first]
+   delimiter, the cells joined by the separator, delimiter; the cell of the first element is its text (after one space
+   when lines are broken for size and it is a scalar), the cell of every later element is arr_gap ++ text: nothing in
+   front of a container child (it breaks the line itself), line break + children's padding in front of a scalar that
+   follows a container or when lines are broken for size, else one space; lines are broken for size iff
+   0 <= width and some maximal run of consecutive scalar children is longer than the width (sz_break_closed) *)
+Theorem C20_array_layout_alternate_closed :
+  forall f ind delim items,
+    f_alt f = true ->
+    let own := i_set_indenting ind true in
+    let szb := (0 <=? f_width f) && existsb (fun t => f_width f <? t) (run_totals items 0) in
+    arr_layout f ind delim items =
+    (if i_breaks own then line_break own else []) ++
+    opt_byte (fst (delim_pair (if N.eqb (f_delim f) 0 then delim else f_delim f))) ++
+    join (sep_or (f_sep f) s_comma) (arr_cells szb (i_padding (i_increase own true)) items) ++
+    opt_byte (snd (delim_pair (if N.eqb (f_delim f) 0 then delim else f_delim f))).
+Proof. exact arr_layout_alternate_closed. Qed.
+Print Assumptions C20_array_layout_alternate_closed.
+
+(* the size rule of arraytype.go:678-692 (a loop with a running width that a container child resets) is that statement
+   about runs, for every width >= 0 *)
+Theorem C20_array_size_break_closed :
+  forall w items, 0 <= w ->
+    sz_break w items 0 = true <-> exists t, In t (run_totals items 0) /\ w < t.
+Proof. intros w items Hw. rewrite (sz_break_closed_eq w items Hw). exact (sz_break_closed_iff w items). Qed.
+Print Assumptions C20_array_size_break_closed.
+
+(* not alternate: one line whatever the children are (C20_array_layout_scalars without its hypotheses on the elements
+   and the width); and both together: arr_layout IS arr_layout_closed, the formula the correspondence evaluates on every
+   Array case of a run (arr_closed_check, sound by C20_array_closed_check_sound) *)
+Theorem C20_array_layout_flat_closed :
+  forall f ind delim items,
+    f_alt f = false ->
+    let own := i_set_indenting ind (i_indenting ind) in
+    arr_layout f ind delim items =
+    (if i_breaks own then line_break own else []) ++
+    opt_byte (fst (delim_pair (if N.eqb (f_delim f) 0 then delim else f_delim f))) ++
+    join (sep_or (f_sep f) s_comma ++ [32%N]) (map snd items) ++
+    opt_byte (snd (delim_pair (if N.eqb (f_delim f) 0 then delim else f_delim f))).
+Proof. exact arr_layout_flat_closed_eq. Qed.
+Print Assumptions C20_array_layout_flat_closed.
+
+Theorem C20_array_layout_closed :
+  forall f ind delim items, arr_layout f ind delim items = arr_layout_closed f ind delim items.
+Proof. exact arr_layout_closed_eq. Qed.
+Print Assumptions C20_array_layout_closed.
+
+Theorem C20_array_closed_check_sound :
+  forall (o : oracle) (v : value) (spec : fspec) (t : str),
+    format_value o v spec = Some (OText t) -> arr_closed_check o v spec (OText t) = true.
+Proof. exact arr_closed_check_model. Qed.
+Print Assumptions C20_array_closed_check_sound.
+
+(* [1, [2, 3], 4] under %#a: the cells; width 3 breaks for size (the run "1" is short, the run "10" "20" is not):
+   one space after the delimiter, every scalar on its own line *)
+Example C20_array_closed_ex :
+  let nl := [10%N] in
+  let f := mkFormat true false false 97 0 (-1) (-1) 0 None None CfNone in
+  let fw := mkFormat true false false 97 0 (-1) 3 0 None None CfNone in
+  arr_layout_closed f default_indentation 91 [(false, lit "1"); (true, nl ++ lit "  [2, 3]"); (false, lit "4")]
+  = lit "[1," ++ nl ++ lit "  [2, 3]," ++ nl ++ lit "  4]"
+  /\ run_totals [(false, lit "1"); (true, lit "[]"); (false, lit "10"); (false, lit "20")] 0 = [1; 4]
+  /\ arr_layout_closed fw default_indentation 91 [(false, lit "1"); (true, nl ++ lit "  []"); (false, lit "10"); (false, lit "20")]
+  = lit "[ 1," ++ nl ++ lit "  []," ++ nl ++ lit "  10," ++ nl ++ lit "  20]"
+  /\ format_value o0 (VArr [VInt 1; VArr []; VInt 10; VInt 20]) (FMap [(KArray, FEStr (lit "%#3a"))])
+  = Some (OText (lit "[ 1," ++ nl ++ lit "  []," ++ nl ++ lit "  10," ++ nl ++ lit "  20]")).
+Proof. vm_compute. repeat split. Qed.
 
 (* nesting: a container child of an alternate Array starts on a new line at level + 1; a container under a Hash key or
    value never breaks (it follows ` => ` on the entry's line) *)
